@@ -1097,6 +1097,30 @@ fn all_election_scenarios() -> Vec<String> {
     out
 }
 
+// ------------------------------------------------------------------ family: race (real threads; schedule dependent: a clean run proves nothing, a failing run is a real lost update)
+fn scenario_race(sc: &str) -> Result<Violations, String> {
+    // sc = "<threads>x<increments per thread>": the threads increment ONE key of one database concurrently; every increment is acknowledged, so none may be lost
+    let p: Vec<usize> = sc.split('x').map(|x| x.parse().unwrap_or(0)).collect();
+    if p.len() != 2 || p[0] == 0 { return Err("bad race scenario".into()); }
+    let (threads, per) = (p[0], p[1]);
+    let db = Arc::new(Database::new("r".into(), DatabaseMataData::new(1, ConsensuStrategy::None)));
+    db.set_value_version(&"n".to_string(), &"0".to_string(), 1, ValueStatus::Ok, 0, 0, 0);
+    let mut v: Violations = vec![];
+    let acks = Arc::new(std::sync::atomic::AtomicUsize::new(0));
+    let hs: Vec<_> = (0..threads).map(|_| { let db = db.clone(); let acks = acks.clone(); std::thread::spawn(move || {
+        for _ in 0..per { if matches!(db.inc_value("n".to_string(), 1), Response::Ok {}) { acks.fetch_add(1, std::sync::atomic::Ordering::Relaxed); } }
+    }) }).collect();
+    for h in hs { if h.join().is_err() { v.push("C10.safety".into()); return Ok(v); } }
+    let e = db.get_value("n".into()).ok_or("key vanished")?;
+    let acked = acks.load(std::sync::atomic::Ordering::Relaxed);
+    // every acknowledged increment is in the value, and each of them raised the version
+    chk(&mut v, "C02.no-lost-increment", e.value == acked.to_string());
+    chk(&mut v, "C02.grow-inc", e.version as usize == 1 + acked);
+    chk(&mut v, "C01.inc-adds", e.value == acked.to_string());
+    Ok(v)
+}
+fn all_race_scenarios() -> Vec<String> { if deep() { vec!["4x20000".into(), "8x20000".into(), "2x50000".into()] } else { vec!["4x5000".into(), "8x2500".into()] } }
+
 // ------------------------------------------------------------------ family: tcpserver (the REAL TCP transport: start_tcp_client on a loopback port, one thread per connection)
 static TCP_SERVER: std::sync::OnceLock<Option<(String, Arc<Databases>)>> = std::sync::OnceLock::new();
 fn tcp_server() -> &'static Option<(String, Arc<Databases>)> {
@@ -1309,14 +1333,15 @@ fn families() -> Vec<(&'static str, fn() -> Vec<String>, fn(&str) -> Result<Viol
          ("resync", all_resync_scenarios, scenario_resync),
          ("permchange", all_permchange_scenarios, scenario_permchange),
          ("httpserver", all_httpserver_scenarios, scenario_httpserver),
-         ("tcpserver", all_tcpserver_scenarios, scenario_tcpserver)]
+         ("tcpserver", all_tcpserver_scenarios, scenario_tcpserver),
+         ("race", all_race_scenarios, scenario_race)]
 }
 /// the properties whose clause labels a family can report (every family reports C10.safety when a call panics, so C10 runs them all)
 fn family_props(fam: &str) -> &'static [&'static str] {
     match fam {
         "store" => &["C01", "C02", "C03", "C08"], "strategy" => &["C02", "C13", "C19"], "pending" => &["C15"], "ids" => &["C16"], "keymap" => &["C16"],
         "oplog" => &["C12"], "session" => &["C01", "C08", "C09"], "permchange" => &["C09"], "arbiter" => &["C13"], "watch" => &["C03"], "lines" => &[], "flood" => &[],
-        "connections" => &["C17"], "snapshot" => &["C01", "C06"], "resync" => &["C05"], "election" => &["C07"], "http" => &["C20"], "httpserver" => &["C08", "C09", "C17", "C20"], "tcpserver" => &["C03", "C17"],
+        "connections" => &["C17"], "snapshot" => &["C01", "C06"], "resync" => &["C05"], "election" => &["C07"], "http" => &["C20"], "httpserver" => &["C08", "C09", "C17", "C20"], "tcpserver" => &["C03", "C17"], "race" => &["C01", "C02"],
         _ => &[],
     }
 }
